@@ -312,3 +312,34 @@ Proof.
       assert (Some data = Some d) as Hsd by (transitivity (rwalk (nth (fst it) tops dummy) [x]); [symmetry; exact E2|exact Hw2]). injection Hsd as <-.
       rewrite E3. repeat split; assumption.
 Qed.
+
+(* ---------- after any history of whole-tree saves the file passes the validator *)
+Lemma happly_plain ts s :
+  Forall (fun t => rcls t = CRoot /\ plain_tree t) ts -> rcls (hroot s) = CRoot -> plain_tree (hroot s) ->
+  Forall (fun t => rcls t = CRoot /\ plain_tree t) (happly ts s).
+Proof.
+  intros Hts Hc Hp. destruct s as [r md tr|r md tr|r md tr]; cbn [happly hroot] in *.
+  - apply Forall_app. split; [exact Hts|]. repeat constructor; assumption.
+  - apply Forall_forall. intros t' Ht'. apply in_map_iff in Ht'. destruct Ht' as (t & <- & Ht). rewrite Forall_forall in Hts. destruct (Hts t Ht) as (A & B).
+    destruct (String.eqb (rname t) (rname r)); [|split; assumption]. split; [unfold union_root; destruct t; exact A|].
+    unfold union_root. apply plain_tree_merge; [apply plain_tree_with_mds; exact B|exact Hp].
+  - apply Forall_forall. intros t' Ht'. apply in_map_iff in Ht'. destruct Ht' as (t & <- & Ht). rewrite Forall_forall in Hts. destruct (Hts t Ht) as (A & B).
+    destruct (String.eqb (rname t) (rname r)); [|split; assumption]. split; [destruct t; exact A|].
+    apply plain_tree_inv. assert (rkids (with_kids t (aom r (rkids t))) = aom r (rkids t)) as -> by (destruct t; reflexivity).
+    apply plain_aom; [apply plain_tree_inv; exact B|exact Hp].
+Qed.
+
+Theorem wf_after_any_history c c0 steps ts :
+  ts <> [] -> Forall (fun t => rcls t = CRoot /\ plain_tree t) ts -> NoDup (map rname ts) -> hgood ts steps ->
+  Forall (fun st => rcls (hroot st) = CRoot /\ plain_tree (hroot st)) steps ->
+  exists f, fold_left (fun s st => snd (write_node c s (hroot st) [] (WA (hmode st) (htree st) None))) steps (H5 (forest_file c0 ts)) = H5 f /\
+            wf_emd c0 f = true.
+Proof.
+  intros Hne Hts Hnd Hg Hsteps. exists (forest_file c0 (fold_left happly steps ts)). split.
+  - apply any_history_of_whole_tree_saves; try assumption. eapply Forall_impl; [|exact Hts]. cbn. intros a Ha. apply Ha.
+  - apply wf_forest_file.
+    + clear -Hne. revert ts Hne. induction steps as [|s rest IH]; intros ts Hne; [exact Hne|]. cbn [fold_left]. apply IH.
+      destruct s; cbn [happly]; destruct ts; try congruence; discriminate.
+    + clear -Hts Hsteps. revert ts Hts. induction steps as [|s rest IH]; intros ts Hts; [exact Hts|]. cbn [fold_left].
+      inversion Hsteps as [|? ? (A & B) Hrest]; subst. apply IH; [exact Hrest|]. apply happly_plain; assumption.
+Qed.
